@@ -325,6 +325,3 @@ package core
 //@   ghost asy = d.asynch at call:Lock#1
 //@   before call:AfterFunc#1 assert d.active == at("call:Lock#2", d.active)
 //@   ensures !isnil(result) && result != mangos.ErrClosed && !old(redial) && !asy ==> !d.active
-//@
-//@ func (*dialer).Dial
-//@   ensures !wasActive && !wasClosed && !isAsynch && !isnil(result) && result != mangos.ErrClosed ==> !d.active
